@@ -36,8 +36,11 @@ def gen_case(ctx, i):
                     maps[s, c, int(r.integers(0, H)), int(r.integers(0, W))] = 1.0
     elif kind in ("gauss", "symmetric"):
         S, C = int(r.integers(1, 3)), int(r.integers(1, 4))
+        huge_batch = bool(r.random() < 0.02)
         if r.random() < 0.12:  # large batches: more than 64 / 128 / 256 valid peaks refined in one call, counts not multiples of a block size
             S, C = int(r.integers(4, 18)), int(r.integers(5, 17))
+        if huge_batch:  # more than 512 maps in one call, a few of them below the threshold
+            S, C = int(r.integers(23, 31)), int(r.integers(23, 27))
         patch = int(r.choice([3, 5, 7, 4, 6, 2]))
         H, W = int(r.integers(patch + 2, 20)), int(r.integers(patch + 2, 20))
         maps = np.zeros((S, C, H, W), np.float32)
@@ -54,7 +57,12 @@ def gen_case(ctx, i):
                 centres[s, c] = (cx, cy)
                 maps[s, c] = np.exp(-((xx - cx) ** 2 + (yy - cy) ** 2) / (2 * sg[s, c] ** 2))
         meta = {"centres": centres, "sigmas": sg}
-        return {"i": i, "kind": kind, "thr": float(r.choice([0.0, 0.2, 0.5])), "patch": patch, "maps": maps, **meta}
+        thr_ = float(r.choice([0.0, 0.2, 0.5]))
+        if huge_batch:
+            thr_ = float(r.choice([0.2, 0.5]))
+            for _ in range(3):
+                maps[int(r.integers(0, S)), int(r.integers(0, C))] *= 0.05  # invalid maps in the middle of the batch
+        return {"i": i, "kind": kind, "thr": thr_, "patch": patch, "maps": maps, **meta}
     elif kind == "mixedvalid":
         maps = pc.gen_maps(r, "bumps")
         S, C = maps.shape[:2]
@@ -86,6 +94,11 @@ def directed(ctx):
     m[0, 1, 5, 5] = 0.05
     yield {"i": -2, "kind": "directed-mixed", "thr": 0.2, "patch": 3, "maps": m}
     yield {"i": -3, "kind": "directed-zero", "thr": 0.0, "patch": 3, "maps": np.zeros((1, 1, 6, 6), np.float32)}
+    # a map with more than 2**24 cells whose maximum sits at an odd flat index above 2**24 (indices beyond float32's integer range)
+    for (yy_, xx_) in ((4099, 4099), (4095, 4093)):
+        big = np.zeros((1, 1, 4100, 4100), np.float32)
+        big[0, 0, yy_, xx_] = 1.0
+        yield {"i": -4, "kind": "directed-huge", "thr": 0.2, "patch": 3, "maps": big}
 
 
 def cases(ctx):
@@ -159,6 +172,8 @@ def check(ctx, case):
     ctx.count("refine_calls")
     if S * C > 64:
         ctx.count("refine_calls_over_64_maps")
+    if S * C > 512:
+        ctx.count("refine_calls_over_512_maps")
     R = rp.numpy().astype(np.float64)
     if tuple(rp.shape) != (S, C, 2) or not np.array_equal(rv.numpy(), vals.numpy()):
         ctx.violation("refine-changes-values", "refinement changed shapes or peak values", small)
